@@ -69,8 +69,8 @@ pub fn lark_items() -> Vec<Item> {
         lark("substr", "start: S \".\"\nS: %regex { \"substring_chunks\": [\"ab\", \"c\", \"de\"] }", &["abcde.", "cde."]),
         lark("substr-words", "start: \"<\" S \">\"\nS: %regex { \"substring_words\": \"the cat sat\" }", &["<cat sat>"]),
         lark("long-literal", "start: \"hello world\" | \"hello there\" | \"help\"", &["hello world", "hello there", "help"]),
-        lark("param-uniq", "start    :  item_list::0x0\nitem_list::_ : \"a\" item_list::set_bit(0) %if !is_bit_set(0)\n   | \"b\" item_list::set_bit(1) %if !is_bit_set(1)\n   | \"c\" item_list::set_bit(2) %if !is_bit_set(2)\n   | \"\"", &["abc", "cab"]),
-        lark("param-perm", "start    :  perm::0x0\nperm::_   :  \"a\" perm::set_bit(0) %if !is_bit_set(0)\n          |  \"b\" perm::set_bit(1) %if !is_bit_set(1)\n          |  \"c\" perm::set_bit(2) %if !is_bit_set(2)\n          |  \"\" %if is_ones([0:3])", &["abc", "bca"]),
+        lark("param-uniq", "start    :  item_list::0x0\nitem_list::_ : \"a\" item_list::set_bit(0) %if bit_clear(0)\n   | \"b\" item_list::set_bit(1) %if bit_clear(1)\n   | \"c\" item_list::set_bit(2) %if bit_clear(2)\n   | \"\"", &["abc", "cab"]),
+        lark("param-perm", "start    :  perm::0x0\nperm::_   :  \"a\" perm::set_bit(0) %if bit_clear(0)\n          |  \"b\" perm::set_bit(1) %if bit_clear(1)\n          |  \"c\" perm::set_bit(2) %if bit_clear(2)\n          |  \"\" %if is_ones([0:3])", &["abc", "bca"]),
         lark("param-count", "start: lst::0\nlst::_ : \"a\" lst::incr(_) %if lt(_, 3)\n  | \"b\" %if ge(_, 1)", &["aab", "aaab"]),
         lark("ignore-once", "%llguidance { \"ignore_once\": true }\n%ignore /[ \\t]{1,3}/\nstart: \"A\" \"!\"", &["A  !", "A!"]),
         lark("regex-class", "start: /[a-c][^a]?/ /\\d{1,2}/", &["ab12", "a1"]),
